@@ -13,7 +13,7 @@ static struct mtbl_merger *mk_merger(family_t *f, mclos_t *mc, int mode)
 {
 	struct mtbl_merger_options *mo = mtbl_merger_options_init();
 	if (mode == 0 || mode == 3) mtbl_merger_options_set_merge_func(mo, ms_merge_cb, mc);
-	if (mode == 2) mtbl_merger_options_set_dupsort_func(mo, dupsort_bytes, NULL);
+	if (mode == 2) mtbl_merger_options_set_dupsort_func(mo, dupsort_bytes, DUPSORT_CLOS);
 	struct mtbl_merger *m = mtbl_merger_init(mo);
 	mtbl_merger_options_destroy(&mo);
 	/* sources added in a random rotation is not needed: order must not matter; add in index order */
@@ -95,6 +95,7 @@ static void case_c04(const args_t *a, long c, rng_t *r)
 		STAT("c04.failing_callback_cases");
 	}
 	if (mc.operand_errors) viol("C04/merge-callback-got-foreign-or-stale-operand", "%" PRIu64 " merge callback operands were not id lists of the key being merged", mc.operand_errors);
+	if (g_dupsort_wrong_clos) { viol("C04/dupsort-called-with-wrong-closure", "the dupsort function was called %" PRIu64 " times with a closure other than the one it was registered with", g_dupsort_wrong_clos); g_dupsort_wrong_clos = 0; }
 	/* mtbl_source_write as an additional observation path (merge mode: output is strictly increasing) */
 	if (mode == 0 && rndp(r, 400)) {
 		char out[4096]; snprintf(out, sizeof out, "%s/c04-out-%ld.mtbl", a->workdir, c); unlink(out);
@@ -207,7 +208,8 @@ static void c05_common(const args_t *a, long c, rng_t *r, int which)
 		if (want_sample()) sample("c05l: %d sources, %zu model entries (%s): %zu derived queries x {get,get_prefix} + ranges on the merger source", f.nsrc, model->n, dupsort ? "dupsort" : "merge function", qs.n);
 		qset_free(&qs);
 	} else if (which == 1) {
-		if (model->n >= 3) {
+		if (model->n > 40) { for (int i = 0; i < 3; i++) suite_history(src, model, r, 100); STAT("c05x.family_too_large_for_product_ran_histories"); }
+		else if (model->n >= 3) {
 			bspec_t b[5]; size_t nb = 0; memset(b, 0, sizeof b);
 			b[nb++].kind = IK_ITER;
 			{ size_t lo = model->n / 4, hi = model->n - 1 - model->n / 4; b[nb].kind = IK_RANGE; b[nb].a = bs_dup(model->e[lo].k.p, model->e[lo].k.n); b[nb].b = bs_dup(model->e[hi].k.p, model->e[hi].k.n); nb++; }
@@ -225,6 +227,7 @@ static void c05_common(const args_t *a, long c, rng_t *r, int which)
 		if (want_sample()) sample("c05h: %d sources, %zu model entries (%s): 3 histories of 40..200 ops on up to 4 interleaved merger iterators", f.nsrc, model->n, dupsort ? "dupsort" : "merge function");
 	}
 	if (mc.operand_errors) viol("C05/merge-callback-got-foreign-or-stale-operand", "%" PRIu64 " merge callback operands were not id lists of the key being merged", mc.operand_errors);
+	if (g_dupsort_wrong_clos) { viol("C05/dupsort-called-with-wrong-closure", "the dupsort function was called %" PRIu64 " times with a foreign closure", g_dupsort_wrong_clos); g_dupsort_wrong_clos = 0; }
 	mtbl_merger_destroy(&m);
 	STAT("c05.cases");
 	case_hash(family_hash(&f) ^ (uint64_t)which << 60 ^ dupsort);
